@@ -1,11 +1,11 @@
 SPECIFICATION Spec
 CONSTANTS
-  NPK = 3
-  EXTRA = 0
   Sizes = {188, 204}
   Kinds = {"seek", "bufio", "plain"}
+  NPKS = {0, 1, 3}
+  EXTRAS = {0, 100}
+  AUTOS = {FALSE}
   Short = TRUE
-  Auto = FALSE
   Dev = {}
 INVARIANTS SameAsFull EndsInBoundedCalls EOFAbsorbing
 CHECK_DEADLOCK FALSE
